@@ -464,10 +464,17 @@ pub fn finish(ctx: &Ctx, mut st: Stats, rule: &str, assumptions: &[&str], wall_s
 // ------------------------------------------------------------------------------------------
 // panic capture
 
-/// Run `f`, turning a panic into Err(message).  The default panic hook is silenced by
-/// `install_quiet_panic_hook`.
+thread_local! {
+    static IN_CATCH: std::cell::Cell<u32> = const { std::cell::Cell::new(0) };
+}
+
+/// Run `f`, turning a panic into Err(message).  Panics inside `catch` are silent; panics of the
+/// harness itself (outside `catch`) are printed by the hook installed below.
 pub fn catch<R>(f: impl FnOnce() -> R) -> Result<R, String> {
-    match std::panic::catch_unwind(std::panic::AssertUnwindSafe(f)) {
+    IN_CATCH.with(|c| c.set(c.get() + 1));
+    let r = std::panic::catch_unwind(std::panic::AssertUnwindSafe(f));
+    IN_CATCH.with(|c| c.set(c.get() - 1));
+    match r {
         Ok(r) => Ok(r),
         Err(e) => {
             let msg = if let Some(s) = e.downcast_ref::<&str>() {
@@ -483,5 +490,11 @@ pub fn catch<R>(f: impl FnOnce() -> R) -> Result<R, String> {
 }
 
 pub fn install_quiet_panic_hook() {
-    std::panic::set_hook(Box::new(|_| {}));
+    let default = std::panic::take_hook();
+    std::panic::set_hook(Box::new(move |info| {
+        let inside = IN_CATCH.with(|c| c.get()) > 0;
+        if !inside {
+            default(info);
+        }
+    }));
 }
